@@ -138,7 +138,11 @@ def _mutate_leaf(cls, spec, rng):
     for _ in range(50):
         s = copy.deepcopy(spec)
         if cls == 'Size':
-            if rng.random() < 0.5:
+            r = rng.random()
+            if r < 0.25:
+                # a magnitude that differs only beyond the second decimal / by one unit in the last place
+                s[0] = float(s[0]) + rng.choice([0.001, 0.004, 0.0049, 1e-9, 0.005])
+            elif r < 0.5:
                 s[0] = float(rng.choice([m for m in geom.MAGS if m != s[0]]))
             else:
                 s[1] = rng.choice([u for u in geom.UNITS if u != s[1]])
